@@ -632,7 +632,7 @@ func genCase(r *lib.RNG) *Case {
 	}
 	if err := checkCase(c); err != nil {
 		c.SQL = "ill-formed: " + err.Error()
-	} else if ts := triggers(c); len(ts) > 0 && !r.Chance(1, 8) {
+	} else if ts := triggers(c); len(ts) > 0 {
 		c.SQL = "ill-formed: avoided known-finding shape " + ts[0]
 	}
 	return c
